@@ -59,6 +59,9 @@ def check(run):
         run.touch(f)
         sub = q.const_local_subst(f)
         ps = [v for n in f.all_nodes() if n['k'] == 'decl' for v in n['vars'] if v.get('name') == 'packet_size']
+        if not ps:
+            run.broke('log_%s: local packet_size not found (renamed?): length rules cannot be evaluated' % kind)
+            continue
         lf = q.linform(f, ps[0]['init'], sub) if ps else None
         want = ({'p.buffer.size()': 1}, 20 + sizes[kind])
         run.check(lf == want, 'R14', 'record-length', PC + '::log_' + kind, f.loc(), 'packet_size is %s, must be sizeof(ip_header) + sizeof(%s_header) + p.buffer.size() = payload + %d' % (q.render(f, ps[0]['init']) if ps else None, kind, 20 + sizes[kind]), 'payload + %d' % (20 + sizes[kind]))
@@ -97,6 +100,9 @@ def check(run):
         sig_ts[kind] = txts
         run.check(ok_ts and (len(txts) >= 2 or bool(why)), 'R14', 'timestamp-split', PC + '::log_' + kind, f.loc(), why or 'seconds / sub-second microseconds idiom not found', 'seconds narrowed from whole seconds, microseconds from the sub-second remainder')
         ep = [v for n in f.all_nodes() if n['k'] == 'decl' for v in n['vars'] if v.get('name') == 'sim_start_time']
+        if not ep or not [v for n in f.all_nodes() if n['k'] == 'decl' for v in n['vars'] if v.get('name') == 'now']:
+            run.broke('log_%s: locals sim_start_time / now not found (renamed?)' % kind)
+            continue
         run.check(bool(ep) and q.int_value(ep[0]['init']) == 441794304, 'R14', 'epoch', PC + '::log_' + kind, f.loc(), 'capture epoch literal changed', 'fixed epoch 441794304')
         run.check(args[:2] == ['(sim_start_time + secs)', 'usecs'], 'R14', 'timestamp-fields', PC + '::log_' + kind, f.loc(), 'timestamp fields are ' + str(args[:2]), 'ts_sec = epoch + secs, ts_usec = usecs')
         nowd = [v for n in f.all_nodes() if n['k'] == 'decl' for v in n['vars'] if v.get('name') == 'now']
@@ -164,7 +170,9 @@ def check(run):
         adv[0].method == '+=' and 'p.buffer.size()' in q.render(sp, adv[0].site['rhs']) and q.render(sp, adv[0].site['lhs']) == 'm_channel->bytes_sent[idx]'
     run.check(oks, 'R4', 'stamp-before-advance', sp.norm, sp.loc(), 'the sequence number is not bytes_sent[idx] sampled before bytes_sent[idx] += payload size', 'stamped, then advanced by p.buffer.size()')
     idx = [v for n in sp.all_nodes() if n['k'] == 'decl' for v in n['vars'] if v.get('name') == 'idx']
-    run.check(bool(idx) and q.render(sp, idx[0]['init']) == 'm_channel->self_idx(m_bound_to)', 'R4', 'direction-index', sp.norm, sp.loc(), 'the counter index is not this side\'s self_idx', 'idx = self_idx(m_bound_to)')
+    if not idx:
+        run.broke('send_packet: local idx not found (renamed?)')
+    run.check(not idx or q.render(sp, idx[0]['init']) == 'm_channel->self_idx(m_bound_to)', 'R4', 'direction-index', sp.norm, sp.loc(), 'the counter index is not this side\'s self_idx', 'idx = self_idx(m_bound_to)')
     ch = fx.record(CH)[0]
     bs = [f for f in ch['fields'] if f['name'] == 'bytes_sent'][0]
     ctor_ok = bs['init']
